@@ -187,8 +187,15 @@ struct ProxyHooks {
 
 impl ProxyHooks {
     fn call(&self, call: Call) -> Reply {
-        self.to_sim.send(call).expect("simulator thread is gone");
-        self.from_sim.recv().expect("simulator thread is gone")
+        // the simulated process was killed while this closure was parked: the closure must not
+        // touch a file any more, so its thread unwinds (quietly: no panic message)
+        if self.to_sim.send(call).is_err() {
+            std::panic::resume_unwind(Box::new("simulator thread is gone"));
+        }
+        match self.from_sim.recv() {
+            Ok(reply) => reply,
+            Err(_) => std::panic::resume_unwind(Box::new("simulator thread is gone")),
+        }
     }
 }
 
